@@ -34,6 +34,12 @@ IN_KINDS = {
     "gap9": ((1, 2, 3, 4, 6, 7, 8, 9, 10), [5, 4, 6, 5.0, 4.5, 0, 11]),
     "strs9": (tuple("abcdefghi"), ["a", "i", "j", "", "ab", "A"]),
     "negrun": (tuple(range(-4, 5)), [-4, 4, -5, 5, 0.5, -0.0, 0]),
+    # tuples of pairs that look like the keyword arguments of an AST node (a validator that tries dict(...) on them)
+    "pairs-name": ((("name", "uid"), ("a", "b")), [("name", "uid"), ("a", "b"), "uid", "name", ("name",)]),
+    "pairs-name1": ((("name", "f"),), [("name", "f"), "f", ("name",), "name"]),
+    "pairs-group": ((("group_definition", "x"), ("group_weight", 1)), [("group_definition", "x"), ("group_weight", 1), "x", 1]),
+    "pairs-pred": ((("left_term", 1), ("logical_operator", 1), ("right_term", 1)), [("left_term", 1), 1, ("right_term", 1)]),
+    "pairs-id": ((("id", "e"), ("splitting_fields", "u"), ("salt", "s"), ("conditions", 1)), [("id", "e"), ("salt", "s"), "e"]),
 }
 
 # run-time containers passed as field values (right operand of in / not in is a field)
